@@ -530,6 +530,39 @@ monitor GlobalWindow.mu inv gwInv
 
 pred gwInv(gw) := gw.groups != nil && forallv(k, "", dom(gw.groups, k) ==> gw.groups[k] != nil && gw.groups[k].keyValues != nil && gw.groups[k].outputAggs != nil && gw.groups[k].triggerAggs != nil)
 
+// ---- TRIGGER WHEN text: AND / OR / = are lowered only as whole words outside quotes and identifiers
+func isWordChar
+  props C17
+  option pure
+  ensures result <==> (c >= 97 && c <= 122) || (c >= 65 && c <= 90) || (c >= 48 && c <= 57) || c == 95
+
+func isOpChar
+  props C17
+  option pure
+  ensures result <==> c == 61 || c == 62 || c == 60 || c == 33
+
+func toLower
+  props C17
+  option pure
+  ensures result == ite(c >= 65 && c <= 90, c + 32, c)
+
+func hasWordAt
+  props C17
+  option safety
+  option pure
+  requires i >= 0
+  ensures a-word-fits: result ==> i + len(word) <= len(s)
+  ensures case-insensitive-match-at-i: result <==> i + len(word) <= len(s) && forall(k, 0, len(word), toLower(s[i + k]) == word[k])
+  loop 1 invariant 0 <= j && j <= len(word) && i + len(word) <= len(s) && forall(k, 0, j, toLower(s[i + k]) == word[k])
+  loop 1 decreases len(word) - j
+
+func normalizeTriggerPredicate
+  props C17
+  option safety
+  before WriteString logical-words-are-lowered-only-as-whole-words-outside-quotes-and-identifiers: ($arg1 == "&&" ==> inQuote == 0 && !isWordChar(prev) && hasWordAt(s, i, "and") && (i + 3 >= n || !isWordChar(s[i + 3]))) && ($arg1 == "||" ==> inQuote == 0 && !isWordChar(prev) && hasWordAt(s, i, "or") && (i + 2 >= n || !isWordChar(s[i + 2]))) && ($arg1 == "==" ==> inQuote == 0 && !isOpChar(prev))
+  loop 1 invariant 0 <= i && i <= n && n == len(s)
+  loop 1 decreases n - i
+
 func normalizeField
   props C17
   option pure
